@@ -97,6 +97,24 @@ func implUnprotect(k *security.IKESAKey, role string, raw []byte, hdr string) st
 				return "hdr-err"
 			}
 		}
+		if hdr == "parsed-elsewhere" {
+			// the receiver parsed the header in place in its receive buffer (the datagram followed by whatever the buffer
+			// held before), copied the datagram out, and has reused the buffer since: IKEHeader.PayloadBytes - documented to
+			// alias the parsed buffer - now shows other octets.  The header FIELDS are those of the datagram.
+			rb := make([]byte, len(raw)+37)
+			copy(rb, raw)
+			for i := len(raw); i < len(rb); i++ {
+				rb[i] = 0x5a
+			}
+			var err error
+			h, err = message.ParseHeader(rb)
+			if err != nil {
+				return "hdr-err"
+			}
+			for i := range rb {
+				rb[i] ^= 0xc3
+			}
+		}
 		var kk *security.IKESAKey
 		if k != nil {
 			kk = k
@@ -143,6 +161,12 @@ func genSkCase(r *Rng, si int) skCase {
 	m := genMessage(r)
 	if r.Chance(1, 8) {
 		m = L(A("msg"), genHeader(r), L()) // empty payload list
+	}
+	if r.Chance(1, 70) {
+		// the largest protected messages: inner payloads of 65471 .. 65500 octets (the SK payload fits the 16-bit payload
+		// length up to 65487 inner octets for every suite; one octet more must be refused by both sides)
+		inner := r.Pick([]int{65471, 65472, 65480, 65487, 65487, 65488, 65500})
+		m = L(A("msg"), genHeader(r), L(L(A("v"), Hx(r.Bytes(inner-4)))))
 	}
 	return skCase{s, genKeys(r, s), []string{"i", "r"}[r.Intn(2)], m, scriptFor(r, 32)}
 }
@@ -207,7 +231,11 @@ func unprotectBoth(c *Ctx, k skCase, role string, raw []byte, hdr string, what s
 	if err := modelSA(c, "u", k); err != nil {
 		return "", err
 	}
-	model, err := c.M.Ask(fmt.Sprintf("(unprotect u %s %s %s)", role, hx(raw), hdr))
+	mh := hdr
+	if mh == "parsed-elsewhere" {
+		mh = "parsed" // same header fields; the model has no aliasing
+	}
+	model, err := c.M.Ask(fmt.Sprintf("(unprotect u %s %s %s)", role, hx(raw), mh))
 	if err != nil {
 		return "", err
 	}
@@ -250,7 +278,7 @@ func evalC01(c *Ctx, k skCase) error {
 		return nil
 	}
 	want := "((ok " + normMsgNoNextFromOriginal(k.m) + ") (calls dec-" + k.role + "))"
-	for _, hdr := range []string{"nohdr", "parsed"} {
+	for _, hdr := range []string{"nohdr", "parsed", "parsed-elsewhere"} {
 		got, err := unprotectBoth(c, k, other(k.role), wire, hdr, "")
 		if err != nil {
 			return err
@@ -316,7 +344,12 @@ func runC01(c *Ctx) error {
 
 // refProtect builds a protected datagram from the RFC text with an arbitrary legal padding:
 // header | SK generic header | IV | CBC(inner | pad | padlen) | trunc HMAC over everything before
-func refProtect(c *Ctx, k skCase, hdrSX *SX, inner []byte, firstType byte, iv, pad []byte) ([]byte, error) {
+type prePayload struct {
+	ty, flags byte
+	body      []byte
+}
+
+func refProtect(c *Ctx, k skCase, hdrSX *SX, inner []byte, firstType byte, iv, pad []byte, pre ...prePayload) ([]byte, error) {
 	ek, ak := k.ks.ei, k.ks.ai
 	if k.role == "r" {
 		ek, ak = k.ks.er, k.ks.ar
@@ -330,16 +363,33 @@ func refProtect(c *Ctx, k skCase, hdrSX *SX, inner []byte, firstType byte, iv, p
 	icv := integOutLen[k.s.i]
 	skLen := 4 + 16 + len(ct) + icv
 	total := 28 + skLen
+	for _, p := range pre {
+		total += 4 + len(p.body)
+	}
 	h := goHeader(hdrSX)
 	b := make([]byte, 28, total)
 	binary.BigEndian.PutUint64(b[0:], h.InitiatorSPI)
 	binary.BigEndian.PutUint64(b[8:], h.ResponderSPI)
 	b[16] = 46
+	if len(pre) > 0 {
+		b[16] = pre[0].ty
+	}
 	b[17] = h.MajorVersion<<4 | h.MinorVersion
 	b[18] = h.ExchangeType
 	b[19] = h.Flags
 	binary.BigEndian.PutUint32(b[20:], h.MessageID)
 	binary.BigEndian.PutUint32(b[24:], uint32(total))
+	// payloads in front of the Encrypted payload (RFC 7296 allows unprotected payloads before SK; unsupported
+	// non-critical ones are skipped by a receiver, and everything up to the checksum is covered by it)
+	for i, p := range pre {
+		next := byte(46)
+		if i+1 < len(pre) {
+			next = pre[i+1].ty
+		}
+		n := 4 + len(p.body)
+		b = append(b, next, p.flags, byte(n>>8), byte(n))
+		b = append(b, p.body...)
+	}
 	b = append(b, firstType, 0, byte(skLen>>8), byte(skLen))
 	b = append(b, iv...)
 	b = append(b, ct...)
@@ -383,6 +433,9 @@ func evalC06(c *Ctx, k skCase) error {
 	}
 	// (b) reference-built messages with any legal padding are accepted and decoded correctly
 	rng := c.Rng
+	if err := evalPrefixedSK(c, k, inner, first, padLen); err != nil {
+		return err
+	}
 	for t := 0; t < 2; t++ {
 		pl := padLen + 16*rng.Intn((255-padLen)/16+1)
 		if 4+16+len(inner)+pl+1+integOutLen[k.s.i] > 65535 {
@@ -393,7 +446,7 @@ func evalC06(c *Ctx, k skCase) error {
 			return err
 		}
 		r.Hist["ref-pad:"+strconv.Itoa(pl/64*64)+"+"]++
-		got, err := unprotectBoth(c, k, other(k.role), rb, []string{"nohdr", "parsed"}[t], " (reference-built message)")
+		got, err := unprotectBoth(c, k, other(k.role), rb, []string{"nohdr", "parsed", "parsed-elsewhere"}[(t+rng.Intn(2)*2)%3], " (reference-built message)")
 		if err != nil {
 			return err
 		}
@@ -405,6 +458,58 @@ func evalC06(c *Ctx, k skCase) error {
 		if gn != want {
 			fail(fmt.Sprintf("a reference-built protected message with pad length %d is not accepted / decoded to its payloads", pl), want, gn)
 		}
+	}
+	return nil
+}
+
+// evalPrefixedSK: a reference-built protected message with unsupported payloads in front of the Encrypted payload:
+// non-critical ones are skipped and the message decodes to its inner payloads; a critical one makes it fail
+func evalPrefixedSK(c *Ctx, k skCase, inner []byte, first byte, padLen int) error {
+	r, rng := c.R, c.Rng
+	unsupTy := func() byte {
+		if rng.Bool() {
+			return byte(rng.Range(1, 32))
+		}
+		return byte(rng.Range(49, 255))
+	}
+	var pre []prePayload
+	anyCrit := false
+	for n := rng.Range(1, 2); n > 0; n-- {
+		p := prePayload{ty: unsupTy(), flags: resBits(rng), body: rng.Bytes(rng.Pick([]int{0, 1, 7, 16, 40}))}
+		if rng.Chance(1, 5) {
+			p.flags |= 0x80
+			anyCrit = true
+		}
+		pre = append(pre, p)
+	}
+	if 28+4+16+len(inner)+padLen+1+integOutLen[k.s.i]+2*44 > 65000 {
+		return nil
+	}
+	rb, err := refProtect(c, k, k.m.At(1), inner, first, rng.Bytes(16), rng.Bytes(padLen), pre...)
+	if err != nil {
+		return err
+	}
+	hdr := []string{"nohdr", "parsed"}[rng.Intn(2)]
+	got, err := unprotectBoth(c, k, other(k.role), rb, hdr, " (reference-built message with unsupported payloads before SK)")
+	if err != nil {
+		return err
+	}
+	tc := fmt.Sprintf("(unsk %s (%s) %s %s %s)", k.s, k.ks.sx(), other(k.role), hx(rb), hdr)
+	r.Count(tc, true, fmt.Sprintf("prefixed-sk:critical=%v", anyCrit))
+	want := "((ok " + normMsgNoNext(k.m) + ") (calls dec-" + k.role + "))"
+	if anyCrit {
+		want = "(err (calls))"
+	}
+	gn := got
+	if b := okBody(strings.TrimSuffix(strings.TrimPrefix(got, "("), " (calls dec-"+k.role+"))")); b != nil {
+		gn = "((ok " + normMsgNoNext(b[0]) + ") (calls dec-" + k.role + "))"
+	}
+	if gn != want {
+		what := "a protected message with non-critical unsupported payloads before the Encrypted payload does not decode as the same message without them"
+		if anyCrit {
+			what = "a protected message with a critical unsupported payload before the Encrypted payload is not rejected before any key is applied"
+		}
+		r.Add(Finding{Kind: "instance", What: what, Case: tc, Expected: want, Observed: gn})
 	}
 	return nil
 }
@@ -489,6 +594,27 @@ func evalC02(c *Ctx, k skCase, exhaustive bool) error {
 	}
 	for _, e := range []int{1, 12, 16, 17, 32} {
 		if err := try("extension", k, recv, append(append([]byte(nil), wire...), rng.Bytes(e)...), hdrs[e%2]); err != nil {
+			return err
+		}
+	}
+	// unsupported non-critical payloads in FRONT of an SK payload whose body is shorter than a checksum (the datagram as a
+	// whole is long, the SK body is not), and in front of the genuine SK payload with the header length adjusted
+	for i := 0; i < 6; i++ {
+		icv := integOutLen[k.s.i]
+		ty := byte(rng.Pick([]int{1, 32, 49, 200, 255}))
+		pl := rng.Pick([]int{0, 8, 12, 16, 40, 64})
+		skBody := rng.Bytes(rng.Range(0, icv-1))
+		if i >= 4 {
+			skBody = wire[32:] // the genuine SK body behind an inserted payload: the checksum no longer matches
+		}
+		x := append([]byte(nil), wire[:28]...)
+		x[16] = ty
+		x = append(x, 46, 0, byte((4+pl)>>8), byte(4+pl))
+		x = append(x, rng.Bytes(pl)...)
+		x = append(x, wire[28], 0, byte((4+len(skBody))>>8), byte(4+len(skBody)))
+		x = append(x, skBody...)
+		binary.BigEndian.PutUint32(x[24:], uint32(len(x)))
+		if err := try("prefixed-short-sk", k, recv, x, hdrs[i%2]); err != nil {
 			return err
 		}
 	}
